@@ -128,7 +128,8 @@ def run_symx(ctx, binary, pattern, workers=NCPU, deadline=None, profile=None, ca
     if env:
         e.update(env)
     t0 = time.time()
-    hard = (deadline or 3600) + 120
+    # the harness stops at its deadline between solver calls: allow one full portfolio round on top before the hard kill
+    hard = (deadline or 3600) + 120 + ((cap[0] + 2 * cap[1]) if cap else 150)
     try:
         p = subprocess.run(cmd, stdout=subprocess.PIPE, stderr=subprocess.PIPE, text=True, env=e, timeout=hard)
         rc, err = p.returncode, p.stderr
